@@ -248,6 +248,11 @@ func (r *Report) finish(cfg *solverCfg) int {
 			fmt.Printf("  %-12s %-80s %s %.2fs %s\n", o.Verdict, o.Name, o.Backend, o.Secs, o.Pos)
 		}
 	}
+	if r.notRun > 0 && exit == 0 {
+		// obligations left undecided without a reported failure: never a pass
+		fmt.Printf("ENGINE-ERROR %d obligations were not run although no failure was reported\n", r.notRun)
+		return 2
+	}
 	if len(r.engineErrs) > 0 && exit == 0 {
 		return 2
 	}
